@@ -283,6 +283,9 @@ def run(ctx):
         res.site(key, True, {"inner_calls": len(inner_calls), "other_success_returns": bad, "verdict": "ok" if ok else "VIOLATION"})
         if not ok:
             res.find(key, p_.loc(), "Program::%s has a success return that is not the result of expand_calibrations_inner (%s): the two entry points can return different programs" % (name, bad or "no call"), "a program whose only calibrations are DEFCAL MEASURE: one entry point expands MEASURE, the other returns the program unchanged")
+    # hoisting: the expansion output reaches the program only through add_instruction (which files DECLARE & co. into
+    # their stores), with and without a source map
+    c09.body_writer_rule(db, res, "K6")
     res.explanation = "Type-directed coverage of the qubit and parameter substitution over the %d body-capable Instruction variants (HIR pattern bindings against ADT field types), dependence of the measurement arm on the measurement's fields, a contradiction check between the two sibling target rewrites, and agreement of the instruction-output effects on both sides of every build_source_map test." % len(bc)
     res.assumptions = ["a calibration body contains only body-capable instruction kinds"]
     return res
